@@ -660,7 +660,13 @@ def execute_pixels(desc, ctx):
                              + (' [whole frame equals the reference with R and B exchanged]' if swapped else ''),
                              fmt=tex.fmt, rb_swapped=swapped, what='main'):
                 known_hit = True
-    # thumbnail
+    # thumbnail.  compute_mipmaps() (run by every save) rebuilds it from the mip of twice its size when there is one;
+    # then it is derived data: checked against what was actually stored, but not for second-generation identity
+    # (the main image it is rebuilt from may legitimately have lost e.g. its alpha channel).
+    tw, th = tex.thumb_dims
+    regen = any((mip_dims(tex.w, tex.h, m)[0] // 2, mip_dims(tex.w, tex.h, m)[1] // 2) == (tw, th) for m in range(b.n_mips))
+    if regen:
+        ctx.label('thumb_regenerated')
     thumb_ok = False
     if tex.thumb != 'NONE' and hasattr(v, '_low_res') and hasattr(r, '_low_res'):
         lv, lr = v._low_res, r._low_res
@@ -668,7 +674,7 @@ def execute_pixels(desc, ctx):
         if ctx.check((lr.width, lr.height) == (lv.width, lv.height) == tex.thumb_dims, 'thumb_dims',
                      f'thumbnail {(lr.width, lr.height)} read, {(lv.width, lv.height)} saved, {tex.thumb_dims} expected'):
             tsrc = frame_bytes(lv)
-            if b.thumb_supplied is not None and max(tex.w, tex.h) < 32:
+            if b.thumb_supplied is not None and not regen:
                 ctx.check(tsrc == b.thumb_supplied, 'save_changed_thumb', 'save() modified the supplied thumbnail')
             diff = pixel_diff(tex.thumb, tsrc, frame_bytes(lr), lv.width) if lv.width else None
             thumb_ok = True
@@ -680,9 +686,11 @@ def execute_pixels(desc, ctx):
                     known_hit = True
     # storing the read-back pixels again changes nothing
     tex2 = Tex(dict(desc['tex'], save_version=None, version=tex.final_minor))
+    gen1 = {key: frame_bytes(get_frame(r, tex, key)) for key in keys}
+    thumb1 = frame_bytes(r._low_res) if thumb_ok else b''
     raw2, r2 = save_and_read(tex2, r)
     for key in keys:
-        g1 = frame_bytes(get_frame(r, tex, key))
+        g1 = gen1[key]
         g2 = frame_bytes(get_frame(r2, tex, key))
         if g1 != g2:
             swapped = g2 == swap_rb(g1)
@@ -692,13 +700,13 @@ def execute_pixels(desc, ctx):
                              f'(x={i % mw}, y={i // mw}): first={tuple(g1[4 * i:4 * i + 4])} second={tuple(g2[4 * i:4 * i + 4])}',
                              fmt=tex.fmt, rb_swapped=swapped, what='main'):
                 known_hit = True
-    if thumb_ok:
-        g1, g2 = frame_bytes(r._low_res), frame_bytes(r2._low_res)
+    if thumb_ok and not regen:
+        g1, g2 = thumb1, frame_bytes(r2._low_res)
         if g1 != g2:
             if not ctx.check(False, 'thumb_idempotent', f'thumbnail {tex.thumb}: second save/read differs from the first',
                              fmt=tex.thumb, rb_swapped=(g2 == swap_rb(g1)), what='thumb'):
                 known_hit = True
-    if not known_hit:
+    if not known_hit and not (regen and tex.thumb != 'NONE'):
         ctx.check(raw2 == raw, 'idempotent_bytes', f'saving the read-back VTF gives different bytes '
                   f'(len {len(raw)} -> {len(raw2)}, first difference at offset '
                   f'{next((i for i in range(min(len(raw), len(raw2))) if raw[i] != raw2[i]), min(len(raw), len(raw2)))})')
@@ -714,6 +722,17 @@ def pixels_fixed(tier):
                 'flags': 0, 'ref': [0.0, 0.0, 0.0], 'bump': 1.0, 'first_frame': 0,
                 'pix': {'kind': 'ramp', 'variant': variant}, 'mips': 'supply', 'file_mips': 0, 'thumb_seed': variant,
             }}
+
+
+    for i, (origin, fmt, thumb) in enumerate([('ctor', 'RGB888', 'RGBA8888'), ('file', 'RGBA8888', 'BGRA4444'),
+                                              ('ctor', 'BGRA5551', 'I8'), ('file', 'A8', 'BGR888_BLUESCREEN')]):
+        # 32x32: the only size whose thumbnail is rebuilt from a mip by compute_mipmaps()
+        yield {'tex': {
+            'origin': origin, 'size': [32, 32], 'frames': 1 + i % 2, 'layout': 'flat', 'version': 2 + i,
+            'save_version': None, 'fmt': fmt, 'thumb': thumb, 'flags': 0, 'ref': [0.0, 0.0, 0.0], 'bump': 1.0,
+            'first_frame': 0, 'pix': {'kind': 'edge', 'seed': i}, 'mips': ['supply', 'compute'][i % 2], 'file_mips': 0,
+            'thumb_seed': i,
+        }}
 
 
 def tex_only_strategy(tier):
@@ -951,7 +970,7 @@ SUBCHECKS = [
     Sub('pixels', execute_pixels, strategy=tex_only_strategy, fixed=pixels_fixed, quick=4000, thorough=24000,
         quick_shards=8, floor=800,
         must_hit=_SHAPES + _LAYOUTS + _VERS + tuple('fmt:' + f for f in SAVE_FORMATS)
-        + tuple('thumb:' + f for f in SAVE_FORMATS) + ('thumb_checked', 'mips:supply', 'mips:compute', 'origin:file')),
+        + tuple('thumb:' + f for f in SAVE_FORMATS) + ('thumb_checked', 'thumb_regenerated', 'mips:supply', 'mips:compute', 'origin:file')),
     Sub('resources', execute_resources, strategy=res_strategy, quick=3000, thorough=40000, floor=500,
         must_hit=('res_int', 'res_bytes', 'res_enum_key', 'res_raw_key', 'nres:3', 'ver:7.3', 'ver:7.4', 'ver:7.5')),
     Sub('sheet', execute_sheet, strategy=res_strategy, quick=3000, thorough=40000, floor=500,
